@@ -26,8 +26,7 @@ RULE = ("Random audio (widths 1/2/4, 1-4 channels, rates 8..48000, 0..60 samples
         "with stdlib wave/open, files written with stdlib are read by auditok.  Oracle: identical bytes (+rate/width/channels for "
         "wav); returned name == template.format(start,end,duration); exists_ok=False on an existing path -> FileExistsError, file "
         "unchanged and never opened for writing (sys.addaudithook 'open' events); load(x, skip, max_read).data == "
-        "full[round(s*rate) : round(s*rate)+round(m*rate)] incl. empty results and values beyond the end (ties accept either "
-        "neighbour); numpy() has shape (channels, samples) and [c][i] equals the struct-decoded signed little-endian value.  "
+        "full[round(s*rate) : round(s*rate)+round(m*rate)] incl. empty results and values beyond the end (round = Python's round(), ties to even); numpy() has shape (channels, samples) and [c][i] equals the struct-decoded signed little-endian value.  "
         "Non-trivial = non-empty audio; distinct = distinct (audio, format, operation).")
 ASSUMPTIONS = [
     "the harness reads files with stdlib wave/open and decodes PCM with struct, never with auditok",
@@ -70,11 +69,8 @@ def wav_read(path):
 
 
 def round_cands(x, rate):
-    q = Fraction(x) * rate
-    c = {round(x * rate)}
-    if abs((q - math.floor(q)) - Fraction(1, 2)) <= Fraction(1, 10 ** 9):
-        c |= {math.floor(q), math.floor(q) + 1}
-    return c
+    """round(s*rate) as the statement spells it: Python's round() of the product (ties to even)."""
+    return {round(x * rate)}
 
 
 def gen_audio(rng):
